@@ -85,7 +85,7 @@ def check_case(case):
                          f'x_corr={by_ident[ik][1]} and x_corr={xc} denote nodes={sorted(ik[0])} sel={ik[1]} conn={ik[2]}',
                          data=dict(d0, other=by_ident[ik][1], nodes=sorted(ik[0]), sel=[list(e) for e, _ in ik[1]])))
         by_ident.setdefault(ik, (key, xc))
-        if len(res.violations) > 5:
+        if len(res.violations) > 40:
             break
     res.nontrivial = corrected and len(by_xc) >= 2
     res.sample = {'spec': spec, 'enc': case['enc'], 'n_vectors': len(obs.records), 'n_corrected_vectors': len(by_xc)}
